@@ -4,7 +4,7 @@ from analysis.cfg import Cfg
 from analysis.flow import (DefUse, backward, find_calls, callee_is, callee_ends, op_local, op_const, switch_info,
                            bool_branch, variant_arms, static_of, field_chain)
 from analysis.table import describe_val, PathWalker
-from rules.common import need
+from rules.common import need, inl, unit
 
 CO = "coroutine::korosensei::Coroutine"
 SUS = "coroutine::suspender::korosensei::Suspender"
@@ -499,7 +499,24 @@ def trap_rule(run, f, rid_msg, rid_install):
             # closure captures the boolean; messages
             cl = [c for c in f.closures_of(b)]
             msgs = {}
-            for c in cl:
+            # (a) the message chosen in the handler itself or in a helper spliced into it (`trap_message(in_bounds)`):
+            #     a bool switch on the in-bounds answer whose arms load the two texts
+            ub = inl(f, b)
+            udu = DefUse(ub)
+            uib = find_calls(ub, callee_is(CO + "::stack_ptr_in_bounds"))
+            direct = False
+            if len(uib) == 1:
+                from analysis.table import PathWalker as _PW, outcome_on_path as _oop
+                for (pth, _c, sv) in _PW(ub).walk(0, lambda bid, t: ("return",) if t["k"] == "return" else None):
+                    val = _oop(ub, udu, pth, uib[0][0])
+                    if val is None:
+                        continue
+                    for x in pth:
+                        for s_ in ub.blocks[x]["stmts"]:
+                            if s_["k"] == "assign" and s_["rhs"]["k"] == "use" and s_["rhs"]["a"]["k"] == "const" and isinstance(s_["rhs"]["a"].get("dbg"), str) and ("invalid memory reference" in s_["rhs"]["a"]["dbg"] or "stack overflow" in s_["rhs"]["a"]["dbg"]):
+                                msgs["other" if val else "0"] = s_["rhs"]["a"]["dbg"]
+                                direct = True
+            for c in ([] if direct else cl):
                 d2 = DefUse(c)
                 for blk in c.blocks:
                     if blk["term"]["k"] == "switch":
@@ -514,7 +531,7 @@ def trap_rule(run, f, rid_msg, rid_install):
             if not (t_msg and "invalid memory reference" in t_msg and f_msg and "stack overflow" in f_msg):
                 why.append("in-bounds must map to \"invalid memory reference\" and out-of-bounds to \"stack overflow\" (found true->%s false->%s)" % (t_msg, f_msg))
             # the captured flag is the result of stack_ptr_in_bounds
-            for blk in b.blocks:
+            for blk in ([] if direct else b.blocks):
                 for i, s in enumerate(blk["stmts"]):
                     if s["k"] == "assign" and s["rhs"]["k"] == "agg" and "closure" in s["rhs"]:
                         for o in s["rhs"]["ops"]:
@@ -537,7 +554,7 @@ def trap_rule(run, f, rid_msg, rid_install):
             run.ok(rid_msg, CO + "::trap_handler/writes-context", "context registers rewritten from TrapHandlerRegs")
         else:
             run.fail(rid_msg, CO + "::trap_handler/writes-context", b.loc(), "the handler no longer rewrites the interrupted context")
-    b = need(run, rid_msg, f, CO + "::stack_ptr_in_bounds")
+    b = unit(run, rid_msg, f, CO + "::stack_ptr_in_bounds")     # `iter().any(|info| ..)` is the same loop
     if b is not None:
         du = DefUse(b)
         cfg = Cfg(b)
@@ -558,7 +575,7 @@ def trap_rule(run, f, rid_msg, rid_install):
             else:
                 norm_c.add((op, a, c))
         loops = any(norm(t.get("orig") or "").endswith("Iterator::next") for (_x, t) in b.calls())
-        over = any("stack_infos" in norm(t.get("callee") or "") for (_x, t) in b.calls())
+        over = any("stack_infos" in norm(t.get("callee") or "") for (_x, t) in b.calls()) or any("stack_infos" in repr(s_) for blk in b.blocks for s_ in blk["stmts"])
         if norm_c == want and loops and over:
             run.ok(rid_msg, CO + "::stack_ptr_in_bounds", "exists segment: stack_bottom <= sp < stack_top")
         else:
